@@ -62,7 +62,7 @@ type Oblig struct {
 	Negate   bool // cover obligations: want SAT
 	Outputs  []OutVar
 	SiteDesc string
-	Deps     []string // earlier ensures of the same return that this obligation assumes
+	Deps     []*Oblig // earlier ensures of the same return that this obligation assumes (IDs are assigned later)
 }
 
 // OutVar is a scalar result of the function at one return (for replay).
